@@ -9,6 +9,8 @@ import (
 	"google.golang.org/grpc/status"
 
 	"github.com/cosi-project/runtime/api/v1alpha1"
+	"github.com/cosi-project/runtime/pkg/state"
+	"github.com/cosi-project/runtime/pkg/state/protobuf/client"
 	"github.com/cosi-project/runtime/pkg/state/protobuf/server"
 )
 
@@ -91,4 +93,10 @@ func (s *shim) List(ctx context.Context, in *v1alpha1.ListRequest, _ ...grpc.Cal
 
 func (s *shim) Watch(ctx context.Context, in *v1alpha1.WatchRequest, _ ...grpc.CallOption) (grpc.ServerStreamingClient[v1alpha1.WatchResponse], error) {
 	return nil, status.Error(codes.Unavailable, "watch is not part of this harness")
+}
+
+// NewRemote returns a state handle that reaches backend through the client
+// adapter and the server (no wire); used by other harness packages.
+func NewRemote(backend state.CoreState) state.CoreState {
+	return client.NewAdapter(&shim{srv: server.NewState(backend)})
 }
